@@ -737,9 +737,19 @@ func (g *GA) actionResults(n *peg.Node, fd *ast.FuncDecl, info *types.Info) (map
 		}
 		switch len(rs.Results) {
 		case 2:
-			// only error-free returns define the value
+			// only error-free returns define the value: `nil` as the error, or an error variable that may be nil (the pair
+			// a decoding routine returned, handed on through locals); an error made on the spot is an error return
 			if id, ok := ast.Unparen(rs.Results[1]).(*ast.Ident); !ok || id.Name != "nil" {
-				return true
+				if call, isCall := ast.Unparen(rs.Results[1]).(*ast.CallExpr); isCall {
+					_ = call
+					return true
+				}
+				if _, isId := ast.Unparen(rs.Results[1]).(*ast.Ident); !isId {
+					return true
+				}
+				if id0, isId0 := ast.Unparen(rs.Results[0]).(*ast.Ident); isId0 && id0.Name == "nil" {
+					return true
+				}
 			}
 			t, c := exprTypes(rs.Results[0])
 			setAdd(ty, setKeys(t)...)
